@@ -47,7 +47,7 @@ def gen_hostile(rng, framer, units, single, other_pdus=None):
     for _ in range(n):
         uid = rng.choice(uid_pool)
         layout = dict(units).get(uid, units[0][1])
-        tid = rng.randrange(65536)
+        tid = rng.choice([0, 1, 0xFFFF, rng.randrange(65536), rng.randrange(65536), rng.randrange(65536)])
         glue = False
         if framer == 'tcp' and last_valid is not None and rng.random() < 0.3:
             # a transaction id that equals a checksum of the frame in front, pipelined in the same read
